@@ -6,6 +6,7 @@
 package gen
 
 import (
+	"io/fs"
 	"bytes"
 	"crypto/ecdsa"
 	"crypto/ed25519"
@@ -250,6 +251,21 @@ func wrapFault(orig func(io.Writer) (int64, error), content []byte, fault *Fault
 	}
 }
 
+// faultyFS refuses Open while its fault is armed (after the first, attach-time Open).
+type faultyFS struct {
+	inner fs.FS
+	f     *Fault
+	opens int32
+}
+
+func (q *faultyFS) Open(name string) (fs.File, error) {
+	n := atomic.AddInt32(&q.opens, 1)
+	if n > 1 && (q.f.Gate == nil || atomic.LoadInt32(q.f.Gate) != 0) {
+		return nil, &fs.PathError{Op: "open", Path: name, Err: fs.ErrNotExist}
+	}
+	return q.inner.Open(name)
+}
+
 // faultySeeker is a caller-supplied io.ReadSeeker that misbehaves while its fault is armed.
 type faultySeeker struct {
 	r    *bytes.Reader
@@ -476,7 +492,13 @@ func (s *MsgSpec) Build(env *Env) (*mail.Msg, error) {
 				m.EmbedReadSeeker(f.Name, fh, fo...)
 			}
 		case "iofs":
-			fsys := fstest.MapFS{"dir/file.dat": &fstest.MapFile{Data: f.Content}}
+			var fsys fs.FS = fstest.MapFS{"dir/file.dat": &fstest.MapFile{Data: f.Content}}
+			if ft, ok := env.Faults[fmt.Sprintf("%s%d", kind, i)]; ok && ft.ErrKind == "source-open" {
+				// the file system answers Open when the file is attached and refuses it while the fault is armed
+				// (file removed, archive closed): the library's own producer has to report that
+				ftc := ft
+				fsys = &faultyFS{inner: fsys, f: &ftc}
+			}
 			fo = append(fo, mail.WithFileName(f.Name))
 			if isAtt {
 				err = m.AttachFromIOFS("dir/file.dat", fsys, fo...)
@@ -530,7 +552,7 @@ func (s *MsgSpec) Build(env *Env) (*mail.Msg, error) {
 			return fmt.Errorf("%s %d: builder did not add the file (have %d)", kind, i, len(files))
 		}
 		var fault *Fault
-		if ft, ok := env.Faults[fmt.Sprintf("%s%d", kind, i)]; ok && !(src == "readseeker" && strings.HasPrefix(ft.ErrKind, "source-")) {
+		if ft, ok := env.Faults[fmt.Sprintf("%s%d", kind, i)]; ok && !((src == "readseeker" || src == "iofs") && strings.HasPrefix(ft.ErrKind, "source-")) {
 			fault = &ft
 		}
 		if f.Enc == "qp-direct" {
